@@ -48,7 +48,7 @@ for _p in ("C01", "C02", "C03"):
     # (a failing exporter, flushers + shutdown racers, destruction for C01; B == Q, gates, slow exporters for C03; ...)
     _others = ",".join(q for q in ("C01", "C02", "C03") if q != _p)
     H("batch_" + _p.lower() + "_x", _p, "sched", ["harness/batch_harness.cc"], sdk=BATCH_SDK,
-      args={"quick": ["--oracle=" + _p, "--cfgset=" + _others, "--set=light", "--k=1", "--budget=60"],
+      args={"quick": ["--oracle=" + _p, "--cfgset=" + _others, "--set=light", "--k=2", "--budget=60"],
             "thorough": ["--oracle=" + _p, "--cfgset=" + _others, "--set=light", "--k=2", "--t=0", "--c=0", "--budget=400"]},
       what="same harness: the predicates of " + _p + " judged on the configuration sets of " + _others + " (every predicate holds for every configuration)",
       design_ref="5/" + _p)
